@@ -266,6 +266,11 @@ def stale_result_scenario(ck, trial, tier):
     keys = chaingen.Keys()
     k_between = trial % 3
     other_worker = (trial // 3) % 2 == 1
+    poisoned = trial >= 6          # the chain holds a block, taken unvalidated from a bulk download, that spends an output it
+    #                               creates itself (balances cannot be replayed over it): adoption of a found block must not
+    #                               depend on bookkeeping that fails on such a chain
+    if poisoned:
+        k_between, other_worker = 0, False
     with chaingen.Env(period=50) as env:
         tg = chaingen.TreeGen(env, keys, rng)
         n = tg.genesis
@@ -279,6 +284,26 @@ def stale_result_scenario(ck, trial, tier):
             try:
                 sn = nodeharness.SingleNode(net, chaingen.impl_state_from(main), [m.block for m in main[1:]], npeers=2)
                 sn.new_messages()
+                if poisoned:
+                    av_ = sorted(tg.spendable(n))
+                    (r0, (v0, pk0)) = av_[0]
+                    t1_ = chaingen.signed_tx(keys, n.utxo, [r0], [(v0, keys.pks[1])])
+                    id1_ = spec.sha256d(t1_.serialize())
+                    t2_ = chaingen.signed_tx(keys, {(id1_, 0): (v0, keys.pks[1])}, [(id1_, 0)], [(v0, keys.pks[2])])
+                    cbp = chaingen.coinbase(n.height + 1, env.subsidy(n.height + 1), keys.pks[3], b'poison')
+                    pblk = chaingen.assemble(env, n, [cbp, t1_, t2_], n.view.time + 2)
+                    u_ = dict(n.utxo)
+                    del u_[r0]
+                    u_[(id1_, 0)] = (v0, keys.pks[1])
+                    del u_[(id1_, 0)]
+                    u_[(spec.sha256d(t2_.serialize()), 0)] = (v0, keys.pks[2])
+                    u_[(spec.sha256d(cbp.serialize()), 0)] = (env.subsidy(n.height + 1), keys.pks[3])
+                    n = chaingen.Node(pblk, n, u_)
+                    tg.nodes.append(n)
+                    net.clock.t = max(net.clock.t, n.view.time + 3)
+                    sn.deliver(0, M.DataMessage(M.DATA_BLOCK, pblk), irt=81)       # bulk-download reply: not validated in-state
+                    if bytes(sn.lp().chain_manager.coinstate.current_chain_hash) != n.id:
+                        return
                 wallet = Wallet({pk: sk.to_string() for pk, sk in keys.by_pk.items()}, list(keys.pks), {})
                 with contextlib.redirect_stdout(io.StringIO()):
                     mw = make_watcher(sn, wallet, net.clock)
@@ -320,9 +345,11 @@ def stale_result_scenario(ck, trial, tier):
                     with contextlib.redirect_stdout(io.StringIO()):
                         mw.handle_scrypt_output_message(0, sh)
                 except Exception as e:
-                    ck.violation('found-block-handler-raises', 'a winning result for a candidate handed out before %d peer '
-                                 'block(s) were adopted makes the found-block handler raise %s: %s' % (k_between, type(e).__name__, e), rp)
-                    return
+                    if not poisoned:
+                        ck.violation('found-block-handler-raises', 'a winning result for a candidate handed out before %d peer '
+                                     'block(s) were adopted makes the found-block handler raise %s: %s' % (k_between, type(e).__name__, e), rp)
+                        return
+                    rp['handler_raised'] = type(e).__name__     # bookkeeping fails on this chain; adoption is judged below
                 sn.pump()
                 after = sn.observe()
                 msgs = sn.new_messages()
@@ -376,7 +403,7 @@ def run(tier, seed):
                 ck.count('generator-gave-up(difficulty)')
                 continue
             ck.disagree('scenario %d crashed: %s' % (trial, tb[-600:]), {'trial': trial})
-    for trial in range(6 if tier == 'quick' else 18):
+    for trial in (list(range(6)) + [6, 7] if tier == 'quick' else list(range(6)) * 3 + [6, 7, 8]):
         try:
             stale_result_scenario(ck, trial, tier)
         except Exception:
@@ -384,6 +411,14 @@ def run(tier, seed):
             tb = traceback.format_exc()
             if 'could not mine a block' not in tb:
                 ck.disagree('stale-result scenario %d crashed: %s' % (trial, tb[-600:]), {'trial': trial})
+    # what the miner assembles from is the pool the chain manager hands it: admission on the network thread interleaved
+    # with the miner thread installing its found block must leave that pool valid at the head (C13's thread probes)
+    try:
+        import check_C13
+        check_C13.thread_probes(ck, tier)
+    except Exception:
+        import traceback
+        ck.disagree('pool thread probe crashed: %s' % traceback.format_exc()[-400:], {})
     if r.ok and (ra or rn):
         outs = model.run_batch([x[0] for x in ra])
         for (req, want, rp), o in zip(ra, outs):
